@@ -168,7 +168,7 @@ def check_small_sites(rep, mir, st):
     def m_into_iter(i, p, fr, c, a, d, r): return c3.ret(p, fr, d, r, Opaque('sliceiter', [S(a[0]), 0]))
     models[r'<&Vec<AsmLine> as IntoIterator>::into_iter$'] = m_into_iter
     models[r'<(AsmMnemonic|Option<u32>|u32|bool|std::string::String) as Clone>::clone$'] = c3.m_clone
-    ctx = Ctx(mir); it = Interp(ctx, inline=[r'<AsmLine as Clone>::clone$', r'<AsmInstruction as Clone>::clone$', r'assemble::<impl.*>::clone$'], models=models); it.assume_some = False
+    ctx = Ctx(mir); it = Interp(ctx, inline=[r'<AsmLine as Clone>::clone$', r'<AsmInstruction as Clone>::clone$', r'assemble::<impl.*>::clone$', r'AssemblyCode::append_(label|asm|inline|comment|dummy)$'], models=models); it.assume_some = False
     it.allow_uninterpreted = [r'^log::', r'max_level', r'fmt::rt::Argument', r'^Arguments::']
     sizes = [z3.BitVec('n%d' % k, 32) for k in range(8)]
     src_lines = [c3.label('.l'), c3.inst('LDA', 'v', sizes[0]), c3.inst('BEQ', '.l', sizes[1]), c3.inst('JMP', '.l', sizes[2]), c3.inline('x', sizes[3]), c3.inst('BMI', '.l', sizes[4]),
@@ -236,6 +236,7 @@ def corpus(rep, tier, st):
     import check_c14, check_c03
     progs += check_c14.extra_programs()
     progs += g_modes()
+    asmprogs = g_asm()
     big = [p for p in check_c03.big_programs('quick') if families.stable_pick(p.pid, 100, 12 if tier == 'quick' else 60)]
     reqs = []
     for p in progs:
@@ -253,6 +254,8 @@ def corpus(rep, tier, st):
             reqs.append((p.pid + '@inline', ['-O1'], q.c()))
     for p in big:
         reqs.append((p.pid + '@O1', ['-O1'], p.big()))
+    for p in asmprogs:
+        reqs.append((p.pid + '@O1', ['-O1'], p.c())); reqs.append((p.pid + '@O0', ['-O0'], p.c()))
     R = common.compile_many(reqs)
     index = {}
     srcs = {i: (a, s) for i, a, s in reqs}
@@ -303,6 +306,27 @@ def g_modes():
         P.append(mkprog('modes/ptr/add', [A(V('va'), B('+', V('va'), Index('pp', ix())))])); P.append(mkprog('modes/ptr/cmp', [If_(B('==', Index('pp', ix()), V('va')))]))
     P.append(mkprog('modes/deref', [A(V('va'), Deref('pp')), A(Deref('pp'), V('vb'))]))
     P.append(mkprog('modes/ptrset', [A(V('pp'), V('arr')), A(V('pq'), V('pp')), ExprS(Inc('++', False, V('pp')))]))
+    return P
+
+
+def g_asm():
+    """asm() statements whose declared size is the data-sheet size of their text, in ordinary functions, in inline functions
+    (copied by append_code), nested inline functions, and inside branch bodies"""
+    from cast import ExprS, Inc, Raw, If, Block, Func, Call
+    from families import V, C, A, B, mkprog
+    ASM = [('nop', 'NOP', 1), ('imm', 'LDA #1', 2), ('zp', 'STA va', 2), ('zpx', 'LDA arr,X', 2), ('abs', 'STA $1234', 3), ('absdef', 'STA $1234', None), ('inx', 'INX', 1), ('aby', 'LDA $1234,Y', 3)]
+    P = []; EG = ('va', 'arr')
+    for (n1, t1, s1), (n2, t2, s2) in itertools.product(ASM, ASM):
+        if n1 > n2: continue
+        a = lambda: [Raw('asm', t1, s1), ExprS(Inc('++', False, V('vb'))), Raw('asm', t2, s2)]
+        P.append(mkprog('asm/plain/%s+%s' % (n1, n2), a(), extra_globals=EG))
+        leaf = Func('leaf', None, [], Block(a()), inline=True)
+        P.append(mkprog('asm/inl/%s+%s' % (n1, n2), [ExprS(Call('leaf', [])), A(V('vc'), C(1)), ExprS(Call('leaf', []))], funcs=[leaf], extra_globals=EG))
+        mid = Func('mid', None, [], Block([ExprS(Call('leaf', [])), ExprS(Inc('++', False, V('vc'))), ExprS(Call('leaf', []))]), inline=True)
+        P.append(mkprog('asm/nest/%s+%s' % (n1, n2), [ExprS(Call('mid', []))], funcs=[leaf, mid], extra_globals=EG))
+        P.append(mkprog('asm/if/%s+%s' % (n1, n2), [If(B('==', V('va'), C(3)), Block([ExprS(Call('leaf', []))] * 3)), A(V('vc'), C(2))], funcs=[leaf], extra_globals=EG))
+        plain = Func('sub', None, [], Block(a()))
+        P.append(mkprog('asm/call/%s+%s' % (n1, n2), [ExprS(Call('sub', [])), A(V('vc'), C(2))], funcs=[plain], extra_globals=EG))
     return P
 
 
